@@ -6,6 +6,7 @@ import (
 	"math"
 	"math/big"
 	"os"
+	"strconv"
 	"strings"
 	"time"
 
@@ -111,39 +112,79 @@ func durKey(d *big.Int) string {
 	return "gps:dur:d=" + d.String()
 }
 
-func utcCase(s *cases.Set, t time.Time, kind string, far bool) {
+// lastGPS describes the previous conversion made through the gps package: the
+// API must not depend on it, so every replay entry records it.
+var lastGPS = "none"
+
+func utcCaseO(s *cases.Set, t time.Time, kind string, far bool, order string) {
+	prev := lastGPS
 	d := gps.Time(t).TimeSinceGPSEpoch()
 	back := time.Time(gps.NewTimeFromTimeSinceGPSEpoch(d))
 	tn := tns(t)
+	lastGPS = "utc " + t.Format(time.RFC3339Nano) + " <-> " + d.String()
 	ctor := "CUtc"
 	key := utcKey(tn)
 	if far {
 		ctor = "CUtcFar"
 		key = "gps:utc-far:t=" + tn.String()
 	}
+	if order != "" {
+		key += ":after=" + order
+	}
 	s.Add(cases.Case{Term: fmt.Sprintf("%s %s %s %s", ctor, zb(tn), cq.Z(int64(d)), zb(tns(back))),
 		Key: key, Kind: kind, Nontrivial: true,
 		Replay: map[string]interface{}{"api": "gps.Time.TimeSinceGPSEpoch -> gps.NewTimeFromTimeSinceGPSEpoch", "utc": t.Format(time.RFC3339Nano), "utc_unix_ns": tn.String(),
-			"observed_since_gps_epoch_ns": int64(d), "observed_back": back.Format(time.RFC3339Nano)}})
+			"observed_since_gps_epoch_ns": int64(d), "observed_back": back.Format(time.RFC3339Nano), "previous_conversion_in_this_process": prev}})
 }
 
+func utcCase(s *cases.Set, t time.Time, kind string, far bool) { utcCaseO(s, t, kind, far, "") }
+
 func monoCase(s *cases.Set, t1, t2 time.Time, kind string) {
+	prev := lastGPS
 	d1 := gps.Time(t1).TimeSinceGPSEpoch()
 	d2 := gps.Time(t2).TimeSinceGPSEpoch()
+	lastGPS = "utc " + t2.Format(time.RFC3339Nano) + " -> " + d2.String()
 	s.Add(cases.Case{Term: fmt.Sprintf("CMono %s %s %s %s", zb(tns(t1)), zb(tns(t2)), cq.Z(int64(d1)), cq.Z(int64(d2))),
 		Key: fmt.Sprintf("gps:mono:t1=%s:t2=%s", tns(t1), tns(t2)), Kind: kind, Nontrivial: true,
 		Replay: map[string]interface{}{"api": "gps.Time.TimeSinceGPSEpoch (two instants)", "utc1": t1.Format(time.RFC3339Nano), "utc2": t2.Format(time.RFC3339Nano),
-			"observed1_ns": int64(d1), "observed2_ns": int64(d2)}})
+			"observed1_ns": int64(d1), "observed2_ns": int64(d2), "previous_conversion_in_this_process": prev}})
 }
 
-func durCase(s *cases.Set, d time.Duration, kind string) {
+func durCaseO(s *cases.Set, d time.Duration, kind string, order string) {
+	prev := lastGPS
 	t := time.Time(gps.NewTimeFromTimeSinceGPSEpoch(d))
 	d2 := gps.Time(t).TimeSinceGPSEpoch()
+	lastGPS = "gps " + d.String() + " <-> " + t.Format(time.RFC3339Nano)
 	db := big.NewInt(int64(d))
+	key := durKey(db)
+	if order != "" {
+		key += ":after=" + order
+	}
 	s.Add(cases.Case{Term: fmt.Sprintf("CGps %s %s %s", cq.Z(int64(d)), zb(tns(t)), cq.Z(int64(d2))),
-		Key: durKey(db), Kind: kind, Nontrivial: true,
+		Key: key, Kind: kind, Nontrivial: true,
 		Replay: map[string]interface{}{"api": "gps.NewTimeFromTimeSinceGPSEpoch -> gps.Time.TimeSinceGPSEpoch", "since_gps_epoch_ns": int64(d),
-			"observed_utc": t.Format(time.RFC3339Nano), "observed_back_ns": int64(d2)}})
+			"observed_utc": t.Format(time.RFC3339Nano), "observed_back_ns": int64(d2), "previous_conversion_in_this_process": prev}})
+}
+
+func durCase(s *cases.Set, d time.Duration, kind string) { durCaseO(s, d, kind, "") }
+
+// prelude makes one conversion in each direction so that the next case runs "after" it.
+func prelude(which string, selfT time.Time, selfD time.Duration) {
+	switch which {
+	case "later": // beyond every leap second of the table
+		t := time.Date(2031, 3, 1, 12, 0, 0, 0, time.UTC)
+		d := gps.Time(t).TimeSinceGPSEpoch()
+		gps.NewTimeFromTimeSinceGPSEpoch(d)
+		lastGPS = "later: utc 2031-03-01T12:00:00Z <-> " + d.String()
+	case "earlier": // before every leap second
+		gps.Time(gpsEpoch).TimeSinceGPSEpoch()
+		gps.NewTimeFromTimeSinceGPSEpoch(time.Hour)
+		lastGPS = "earlier: gps 1h0m0s"
+	case "self":
+		gps.Time(selfT).TimeSinceGPSEpoch()
+		gps.NewTimeFromTimeSinceGPSEpoch(selfD)
+		lastGPS = "self"
+	}
 }
 
 func gpsCases(s *cases.Set, r *cq.RNG, thorough bool) {
@@ -155,6 +196,52 @@ func gpsCases(s *cases.Set, r *cq.RNG, thorough bool) {
 		time.Date(2012, 6, 30, 23, 59, 59, 0, time.UTC), time.Date(2012, 7, 1, 0, 0, 0, 0, time.UTC)} {
 		utcCase(s, t, "gps-utc-testvector", false)
 	}
+
+	// --- deliberate call orders: the conversions must not depend on what was converted before ---
+	// For every published leap second: L = 23:59:59 UTC, G = GPS duration at L; the inserted second is [G+1 s, G+2 s),
+	// G+2 s is the first instant after it (00:00:00 UTC).  Each instant is converted after a much later instant,
+	// after a much earlier one, and after itself.
+	var near []int64
+	for _, k := range []int64{0, 1000000000, 2000000000} {
+		near = append(near, k-1, k, k+1)
+	}
+	for i, st := range steps() {
+		L := time.Unix(st-1, 0).UTC()
+		G := time.Duration((st-1-gpsEpoch.Unix())+int64(i)) * time.Second
+		for _, o := range near {
+			for _, ord := range []string{"later", "earlier", "self"} {
+				d := G + time.Duration(o)
+				t := L.Add(time.Duration(o))
+				prelude(ord, t, d)
+				durCaseO(s, d, "gps-dur-leap-call-order", ord)
+				prelude(ord, t, d)
+				utcCaseO(s, t, "gps-utc-leap-call-order", false, ord)
+			}
+		}
+		// GPS -> UTC strictly increasing next to the inserted second (pairs that do not leave it: UTC repeats 00:00:00 there),
+		// whatever was converted before
+		for _, ord := range []string{"later", "earlier"} {
+			for _, o := range []int64{1000000000 - 2, 1000000000 - 1, 2000000000, 2000000000 + 1} {
+				prelude(ord, L, G)
+				ta := time.Time(gps.NewTimeFromTimeSinceGPSEpoch(G + time.Duration(o)))
+				prelude(ord, L, G)
+				tb := time.Time(gps.NewTimeFromTimeSinceGPSEpoch(G + time.Duration(o+1)))
+				if !ta.Before(tb) {
+					s.Fail(cases.GoFail{Key: fmt.Sprintf("gps:dur-not-monotone:d=%d:after=%s", int64(G)+o, ord),
+						What:   "NewTimeFromTimeSinceGPSEpoch maps a later GPS duration to an earlier UTC instant",
+						Replay: map[string]interface{}{"api": "gps.NewTimeFromTimeSinceGPSEpoch", "d1_ns": int64(G) + o, "d2_ns": int64(G) + o + 1, "utc1": ta.Format(time.RFC3339Nano), "utc2": tb.Format(time.RFC3339Nano), "previous_conversion": ord}})
+				}
+			}
+		}
+	}
+	s.Exhaustive("gps call order: for each of the 18 leap seconds the instants G, G+1 s, G+2 s and their +-1 ns neighbours (both directions), each converted after a much later instant, after a much earlier one and after itself")
+
+	// --- all remaining cases are issued in a seeded random order ---
+	var jobs []func()
+	qU := func(t time.Time, kind string, far bool) { jobs = append(jobs, func() { utcCase(s, t, kind, far) }) }
+	qD := func(d time.Duration, kind string) { jobs = append(jobs, func() { durCase(s, d, kind) }) }
+	qM := func(t1, t2 time.Time, kind string) { jobs = append(jobs, func() { monoCase(s, t1, t2, kind) }) }
+
 	var offs []int64 // ns relative to L = step - 1 s
 	for h := int64(-6); h <= 8; h++ {
 		offs = append(offs, h*500000000)
@@ -166,14 +253,14 @@ func gpsCases(s *cases.Set, r *cq.RNG, thorough bool) {
 		L := time.Unix(st-1, 0).UTC()
 		G := time.Duration((st-1-gpsEpoch.Unix())+int64(i)) * time.Second // GPS duration at UTC L
 		for _, o := range offs {
-			utcCase(s, L.Add(time.Duration(o)), "gps-utc-leap-dense", false)
-			durCase(s, G+time.Duration(o), "gps-dur-leap-dense")
+			qU(L.Add(time.Duration(o)), "gps-utc-leap-dense", false)
+			qD(G+time.Duration(o), "gps-dur-leap-dense")
 		}
 		for _, o := range []int64{-1000000000, -1, 0, 1, 499999999, 999999999, 1000000000, 1000000001} {
-			monoCase(s, L.Add(time.Duration(o)), L.Add(time.Duration(o+1)), "gps-mono-leap-adjacent")
+			qM(L.Add(time.Duration(o)), L.Add(time.Duration(o+1)), "gps-mono-leap-adjacent")
 		}
-		monoCase(s, L.Add(500*time.Millisecond), L.Add(time.Second), "gps-mono-leap-adjacent")
-		monoCase(s, L, L.Add(500*time.Millisecond), "gps-mono-leap-adjacent")
+		qM(L.Add(500*time.Millisecond), L.Add(time.Second), "gps-mono-leap-adjacent")
+		qM(L, L.Add(500*time.Millisecond), "gps-mono-leap-adjacent")
 	}
 	s.Exhaustive("gps: every one of the 18 published leap seconds, UTC instants and GPS durations at -3 s .. +4 s in 0.5 s steps and +-1 ns around each whole second")
 	n := 150
@@ -186,25 +273,136 @@ func gpsCases(s *cases.Set, r *cq.RNG, thorough bool) {
 		return time.Unix(lo+int64(r.U64()%uint64(hi-lo)), int64(r.U64()%1000000000)).UTC()
 	}
 	for i := 0; i < n; i++ {
-		utcCase(s, rt(), "gps-utc-random-1980-2100", false)
-		durCase(s, time.Duration(r.U64()%uint64((hi-lo)))*time.Second+time.Duration(r.U64()%1000000000), "gps-dur-random")
+		qU(rt(), "gps-utc-random-1980-2100", false)
+		qD(time.Duration(r.U64()%uint64((hi-lo)))*time.Second+time.Duration(r.U64()%1000000000), "gps-dur-random")
 		a, b := rt(), rt()
 		if i%3 == 0 {
 			b = a.Add(time.Duration(r.U64()%3000000000) - 1500000000)
 		}
-		monoCase(s, a, b, "gps-mono-random")
+		qM(a, b, "gps-mono-random")
 	}
 	// before the GPS epoch (offset 0) and whole-second neighbours of the epoch
 	for _, t := range []time.Time{time.Unix(0, 0).UTC(), gpsEpoch.Add(-time.Nanosecond), gpsEpoch.Add(time.Nanosecond), time.Date(1975, 3, 1, 12, 0, 0, 5, time.UTC)} {
-		utcCase(s, t, "gps-utc-before-epoch", false)
+		qU(t, "gps-utc-before-epoch", false)
 	}
-	durCase(s, 0, "gps-dur-edge")
-	durCase(s, -time.Second, "gps-dur-edge")
+	qD(0, "gps-dur-edge")
+	qD(-time.Second, "gps-dur-edge")
 	// far outside the property's range: Duration saturation (292 years) is part of the model
 	for _, t := range []time.Time{time.Date(2272, 1, 1, 0, 0, 0, 0, time.UTC), time.Date(2300, 5, 5, 1, 2, 3, 4, time.UTC), time.Date(2400, 1, 1, 0, 0, 0, 0, time.UTC),
 		time.Date(1687, 1, 1, 0, 0, 0, 0, time.UTC), time.Date(1600, 1, 1, 0, 0, 0, 0, time.UTC), time.Date(2262, 4, 11, 0, 0, 0, 0, time.UTC)} {
-		utcCase(s, t, "gps-utc-far-saturation", true)
+		qU(t, "gps-utc-far-saturation", true)
 	}
+	shuffle(r, len(jobs), func(i, j int) { jobs[i], jobs[j] = jobs[j], jobs[i] })
+	for _, j := range jobs {
+		j()
+	}
+	s.Extra["gps_call_order"] = "witnesses and deliberate orderings first, then all other GPS cases in a seeded random order (Fisher-Yates from the run's seed)"
+}
+
+// shuffle: Fisher-Yates driven by the run's RNG.
+func shuffle(r *cq.RNG, n int, swap func(i, j int)) {
+	for i := n - 1; i > 0; i-- {
+		swap(i, r.Intn(i+1))
+	}
+}
+
+// historyCheck evaluates every probe once in the given order and once more in a shuffled order (with the other
+// probes interleaved differently): a pure API must answer identically.  Differences are property failures.
+func historyCheck(s *cases.Set, r *cq.RNG, api string, names []string, probes []func() string) {
+	first := make([]string, len(probes))
+	for i, p := range probes {
+		first[i] = p()
+	}
+	for round := 0; round < 3; round++ {
+		idx := make([]int, len(probes))
+		for i := range idx {
+			idx[i] = i
+		}
+		shuffle(r, len(idx), func(i, j int) { idx[i], idx[j] = idx[j], idx[i] })
+		fails := 0
+		for pos, i := range idx {
+			if got := probes[i](); got != first[i] && fails < 5 {
+				fails++
+				prevName := "none"
+				if pos > 0 {
+					prevName = names[idx[pos-1]]
+				}
+				s.Fail(cases.GoFail{Key: "history:" + api + ":" + names[i], What: api + " answers differently for the same input depending on the calls made before (history dependence)",
+					Replay: map[string]interface{}{"api": api, "input": names[i], "first_answer": first[i], "answer_in_shuffled_order": got, "previous_input": prevName, "round": round}})
+			}
+		}
+	}
+	s.Extra["history_probes_"+api] = len(probes)
+}
+
+func historyCases(s *cases.Set, r *cq.RNG, thorough bool) {
+	n := 300
+	if thorough {
+		n = 5000
+	}
+	// gps, both directions, around every leap second and random
+	var names []string
+	var probes []func() string
+	lo := gpsEpoch.Unix()
+	hi := time.Date(2101, 1, 1, 0, 0, 0, 0, time.UTC).Unix()
+	addD := func(d time.Duration) {
+		names = append(names, "gps-duration="+strconv.FormatInt(int64(d), 10))
+		probes = append(probes, func() string { return time.Time(gps.NewTimeFromTimeSinceGPSEpoch(d)).Format(time.RFC3339Nano) })
+	}
+	addT := func(t time.Time) {
+		names = append(names, "utc="+t.Format(time.RFC3339Nano))
+		probes = append(probes, func() string { return strconv.FormatInt(int64(gps.Time(t).TimeSinceGPSEpoch()), 10) })
+	}
+	for i, st := range steps() {
+		L := time.Unix(st-1, 0).UTC()
+		G := time.Duration((st-1-gpsEpoch.Unix())+int64(i)) * time.Second
+		for _, k := range []int64{0, 1000000000, 2000000000} {
+			for _, e := range []int64{-1, 0, 1} {
+				addD(G + time.Duration(k+e))
+				addT(L.Add(time.Duration(k + e)))
+			}
+		}
+	}
+	for i := 0; i < n; i++ {
+		addD(time.Duration(r.U64()%uint64(hi-lo))*time.Second + time.Duration(r.U64()%1000000000))
+		addT(time.Unix(lo+int64(r.U64()%uint64(hi-lo)), int64(r.U64()%1000000000)).UTC())
+	}
+	historyCheck(s, r, "gps", names, probes)
+
+	// EIRP, airtime, sensitivity: pure today; a sample evaluated twice in different orders
+	names, probes = nil, nil
+	for i := 0; i < n; i++ {
+		p := float32(r.U64()%4400000)/100000.0 - 2
+		if i < 16 {
+			p = []float32{8, 10, 12, 13, 14, 16, 18, 20, 21, 24, 26, 27, 29, 30, 33, 36}[i]
+		}
+		names = append(names, fmt.Sprintf("power=%v", p))
+		probes = append(probes, func() string {
+			idx := lorawan.GetTXParamSetupEIRPIndex(p)
+			v, err := lorawan.GetTXParamSetupEIRP(idx)
+			return fmt.Sprintf("%d %v %v", idx, v, err)
+		})
+	}
+	historyCheck(s, r, "eirp", names, probes)
+	names, probes = nil, nil
+	for i := 0; i < n; i++ {
+		pl, sf, bw, pre, cr, h, ld := r.Intn(256), 5+r.Intn(8), bandwidths[r.Intn(5)], r.Intn(65), 1+r.Intn(4), r.Bool(), r.Bool()
+		names = append(names, fmt.Sprintf("sf=%d:bw=%d:pre=%d:cr=%d:h=%d:ldro=%d:pl=%d", sf, bw, pre, cr, b01(h), b01(ld), pl))
+		probes = append(probes, func() string {
+			d, err := airtime.CalculateLoRaAirtime(pl, sf, bw, pre, airtime.CodingRate(cr), h, ld)
+			return fmt.Sprintf("%d %v", int64(d), err)
+		})
+	}
+	historyCheck(s, r, "airtime", names, probes)
+	names, probes = nil, nil
+	for i := 0; i < n; i++ {
+		bw, nf, snr, tx := 1+r.Intn(3000000), float32(r.Intn(12)), float32(r.Intn(61)-40)/2, float32(r.Intn(41))
+		names = append(names, fmt.Sprintf("bw=%d:nf=%v:snr=%v:tx=%v", bw, nf, snr, tx))
+		probes = append(probes, func() string {
+			return fmt.Sprintf("%v %v", sensitivity.CalculateSensitivity(bw, nf, snr), sensitivity.CalculateLinkBudget(bw, nf, snr, tx))
+		})
+	}
+	historyCheck(s, r, "sensitivity", names, probes)
 }
 
 // ---- airtime ----------------------------------------------------------------
@@ -486,6 +684,7 @@ func main() {
 	airtimeCases(s, r.Fork(), thorough)
 	eirpCases(s, r.Fork(), thorough)
 	sensCases(s, r.Fork(), thorough)
+	historyCases(s, r.Fork(), thorough)
 	if err := s.Finish(); err != nil {
 		fmt.Fprintln(os.Stderr, err)
 		os.Exit(2)
